@@ -1,0 +1,96 @@
+//go:build verif
+// +build verif
+
+package db
+
+import (
+	"sync/atomic"
+
+	"github.com/syndtr/goleveldb/leveldb/iterator"
+)
+
+// Verification hook H2 (build tag verif, add-only): observe and abort physical
+// writes of a store, so that a harness can stop an operation after its k-th
+// write and then re-open the chain on what reached the disk (crash points).
+//
+// Usage: wrap the db.Database a component writes through with VerifWrap (from a
+// verif-tagged file inside that component's package) and set VerifWriteHook.
+// Nothing here is compiled without the tag.
+
+// VerifAbort is the panic value raised when VerifWriteHook refuses a write.
+// The refused write is NOT performed.
+type VerifAbort struct {
+	Op  string
+	Key []byte
+	Seq uint64
+}
+
+// VerifWriteHook is called before every physical write that goes through a
+// wrapped database. op is "put", "delete" or "batch"; key is the un-prefixed
+// key (nil for a batch); nvalues is 1 for put/delete and the number of queued
+// puts for a batch. Returning false aborts: the write is skipped and the call
+// panics with VerifAbort. nil hook = writes pass through.
+var VerifWriteHook func(op string, key []byte, nvalues int) bool
+
+var verifWriteSeq uint64
+
+// VerifWriteCount is the number of physical writes let through so far.
+func VerifWriteCount() uint64 { return atomic.LoadUint64(&verifWriteSeq) }
+
+func verifGate(op string, key []byte, n int) {
+	if h := VerifWriteHook; h != nil {
+		if !h(op, key, n) {
+			panic(VerifAbort{Op: op, Key: append([]byte{}, key...), Seq: atomic.LoadUint64(&verifWriteSeq)})
+		}
+	}
+	atomic.AddUint64(&verifWriteSeq, 1)
+}
+
+type verifDB struct{ inner Database }
+
+// VerifWrap returns a Database whose Put/Delete/batch Write consult VerifWriteHook.
+// Wrapping twice is a no-op.
+func VerifWrap(inner Database) Database {
+	if w, ok := inner.(*verifDB); ok {
+		return w
+	}
+	return &verifDB{inner: inner}
+}
+
+// VerifUnwrap returns the database below a VerifWrap (or the argument itself).
+func VerifUnwrap(d Database) Database {
+	if w, ok := d.(*verifDB); ok {
+		return w.inner
+	}
+	return d
+}
+
+func (d *verifDB) Put(key []byte, value []byte) error {
+	verifGate("put", key, 1)
+	return d.inner.Put(key, value)
+}
+func (d *verifDB) Delete(key []byte) error {
+	verifGate("delete", key, 1)
+	return d.inner.Delete(key)
+}
+func (d *verifDB) Get(key []byte) ([]byte, error) { return d.inner.Get(key) }
+func (d *verifDB) Has(key []byte) (bool, error)   { return d.inner.Has(key) }
+func (d *verifDB) Close()                         { d.inner.Close() }
+func (d *verifDB) NewIterator() iterator.Iterator { return d.inner.NewIterator() }
+func (d *verifDB) NewIteratorWithPrefix(prefix []byte) iterator.Iterator {
+	return d.inner.NewIteratorWithPrefix(prefix)
+}
+func (d *verifDB) NewBatch() Batch { return &verifBatch{inner: d.inner.NewBatch()} }
+
+type verifBatch struct {
+	inner Batch
+	n     int
+}
+
+func (b *verifBatch) Put(key, value []byte) error { b.n++; return b.inner.Put(key, value) }
+func (b *verifBatch) ValueSize() int              { return b.inner.ValueSize() }
+func (b *verifBatch) Reset()                      { b.n = 0; b.inner.Reset() }
+func (b *verifBatch) Write() error {
+	verifGate("batch", nil, b.n)
+	return b.inner.Write()
+}
